@@ -1141,6 +1141,10 @@ class Runner:
             except OverflowError:
                 return ("normskip", "Overflow")
             except Exception as e:  # noqa: BLE001
+                if isinstance(e, ValueError) and "'inf'" in str(e):
+                    # a fractional unit exponent (after auto-reduction) makes the root factor a
+                    # float, which overflowed: Fraction('inf') - float range, as OverflowError
+                    return ("normskip", "Overflow")
                 return ("normfail", type(e).__name__ + ": " + str(e)[:120])
         if type(obj).__name__ in ("bool", "bool_"):
             return ("bool", bool(obj))
